@@ -264,10 +264,19 @@ class ObjCrossRef:
             locally defined scope providers.
     """
 
-    def __init__(self, obj_name, cls, position, scope_provider, match_rule_name):
+    def __init__(
+        self,
+        obj_name,
+        cls,
+        position,
+        scope_provider,
+        match_rule_name,
+        position_end=None,
+    ):
         self.obj_name = obj_name
         self.cls = cls
         self.position = position
+        self.position_end = position_end
         self.scope_provider = scope_provider
         self.match_rule_name = match_rule_name
 
@@ -735,6 +744,7 @@ def parse_tree_to_objgraph(
                         position=node[0].position,
                         scope_provider=p,
                         match_rule_name=rn,
+                        position_end=node[0].position_end,
                     )
                     parser._crossrefs.append((model_obj, metaattr, value))
                     return model_obj
@@ -764,6 +774,7 @@ def parse_tree_to_objgraph(
                                 position=n.position,
                                 scope_provider=p,
                                 match_rule_name=rn,
+                                position_end=n.position_end,
                             )
 
                             parser._crossrefs.append((obj_attr, metaattr, value))
@@ -1170,7 +1181,11 @@ class ReferenceResolver:
                         RefRulePosition(
                             name=crossref.obj_name,
                             ref_pos_start=crossref.position,
-                            ref_pos_end=crossref.position + len(resolved.name),
+                            ref_pos_end=(
+                                crossref.position_end
+                                if crossref.position_end is not None
+                                else crossref.position + len(resolved.name)
+                            ),
                             def_file_name=get_model(resolved)._tx_filename,
                             def_pos_start=resolved._tx_position,
                             def_pos_end=resolved._tx_position_end,
